@@ -454,6 +454,32 @@ def small_model(ob):
     return ob.model
 
 
+class ReadOnlySource:
+    """a source that offers nothing but read(n) (socket-like)"""
+
+    def __init__(self, data):
+        self._d, self.pos = bytes(data), 0
+
+    def read(self, n=-1):
+        n = len(self._d) - self.pos if n is None or n < 0 else n
+        out = self._d[self.pos:self.pos + n]
+        self.pos += len(out)
+        return out
+
+
+class WriteOnlySink:
+    """a sink that offers nothing but write(b)"""
+
+    def __init__(self):
+        self.chunks = []
+
+    def write(self, b):
+        self.chunks.append(bytes(b))
+
+    def getvalue(self):
+        return b"".join(self.chunks)
+
+
 def native_outcome(thunk):
     try:
         return ("return", thunk())
@@ -470,6 +496,11 @@ def writer_replayer(fn, contract, value):
         kind, res = native_outcome(lambda: fn(buf, v))
         observed = {"outcome": kind, "exception": exc_name(res) if kind == "raise" else None,
                     "bytes": buf.getvalue().hex()}
+        wo = WriteOnlySink()
+        kind2, res2 = native_outcome(lambda: fn(wo, v))
+        if (kind2, wo.getvalue()) != (kind, buf.getvalue()) or (kind2 == "raise" and res2 is not res):
+            observed = {"outcome": kind2, "exception": exc_name(res2) if kind2 == "raise" else None, "bytes": wo.getvalue().hex(),
+                        "stream": "write-only sink (differs from io.BytesIO)"}
         exp = contract.expect(Ctx(), v)
         if exp[0] == "raise":
             expected = {"outcome": "raise", "exception": exc_name(exp[1]), "bytes": ""}
@@ -502,8 +533,20 @@ def reader_replayer(fn, mode, contract, segs, value, cut=None, extra_args=(), al
             data = data[:conc.int_(cut)]
         buf = io.BytesIO(data)
         kind, res = native_outcome(lambda: fn(buf, *extra_args))
+        pos = buf.tell()
+        ro = ReadOnlySource(data)
+        kind2, res2 = native_outcome(lambda: fn(ro, *extra_args))
+        stream = "io.BytesIO"
+        if kind2 != kind or (kind == "raise" and res2 is not res) or (kind == "return" and (res2 != res or ro.pos != pos)):
+            kind, res, pos, stream = kind2, res2, ro.pos, "read-only source (differs from io.BytesIO)"
         observed = {"outcome": kind, "value": repr(res)[:300] if kind == "return" else None,
-                    "exception": exc_name(res) if kind == "raise" else None, "position": buf.tell()}
+                    "exception": exc_name(res) if kind == "raise" else None, "position": pos, "stream": stream}
+
+        class _B:      # position of the deciding run
+            @staticmethod
+            def tell():
+                return pos
+        buf = _B
         if mode == "match":
             v = conc.value(value)
             ok = kind == "return" and res == v and type(res) is type(v) and buf.tell() == enc_len
@@ -531,14 +574,17 @@ def general_replayer(fn, contract, allowed, extra_args=(), samples=3000):
         for i in range(samples):
             n = rnd.choice((0, 1, 2, 3, 4, 5, 8, 9, 16, 17, 24))
             data = bytes(rnd.choice((0, 1, 2, 0x7F, 0x80, 0x81, 0xFF, rnd.randrange(256))) for _ in range(n))
-            buf = io.BytesIO(data)
-            kind, res = native_outcome(lambda: fn(buf, *extra_args))
-            bad = (kind == "raise" and not any(res is a or (isinstance(res, type) and issubclass(res, a)) for a in allowed)) \
-                or buf.tell() > len(data)
-            if bad:
-                return {"confirmed": True, "function": f"{fn.__module__}:{getattr(fn, '__qualname__', fn)}",
-                        "input_bytes": data.hex(), "expected": "one of " + ", ".join(exc_name(a) for a in allowed),
-                        "observed": {"outcome": kind, "exception": exc_name(res) if kind == "raise" else None}}
+            for mk_stream, sname in ((io.BytesIO, "io.BytesIO"), (ReadOnlySource, "read-only source")):
+                buf = mk_stream(data)
+                kind, res = native_outcome(lambda: fn(buf, *extra_args))
+                pos = buf.tell() if hasattr(buf, "tell") else buf.pos
+                bad = (kind == "raise" and not any(res is a or (isinstance(res, type) and issubclass(res, a)) for a in allowed)) \
+                    or pos > len(data)
+                if bad:
+                    return {"confirmed": True, "function": f"{fn.__module__}:{getattr(fn, '__qualname__', fn)}",
+                            "input_bytes": data.hex(), "stream": sname, "input_len": len(data), "position": pos,
+                            "expected": "one of " + ", ".join(exc_name(a) for a in allowed) + "; position <= input length",
+                            "observed": {"outcome": kind, "exception": exc_name(res) if kind == "raise" else None}}
         return {"confirmed": None, "note": f"no failing input among {samples} sampled byte strings"}
     return replay
 
